@@ -380,6 +380,81 @@ def _iscomplexobj(x):
 
 
 facade.iscomplexobj = _iscomplexobj
+
+
+def _raw(x):
+    """object array behind a shim Tensor / ndarray wrapper / real array / scalar"""
+    if type(x).__name__ == 'Tensor' and hasattr(x, 'a'):
+        return x.a
+    if type.__instancecheck__(ndarray, x):
+        return x.a
+    if isinstance(x, _np.ndarray):
+        return x.astype(object)
+    b = _np.empty((), dtype=object)
+    b[()] = x
+    return b
+
+
+def _has_symint(a):
+    return any(isinstance(v, SymInt) for v in a.flat)
+
+
+def _unravel_index(indices, shape, order='C'):
+    a = _raw(indices)
+    if not _has_symint(a):
+        return _np.unravel_index(_np.array(a.tolist(), dtype=_np.int64) if a.ndim else int(a[()]), shape, order)
+    if order != 'C':
+        unsupported('unravel_index order')
+    shape = [int(n) for n in shape]
+    tot = 1
+    for n in shape:
+        tot *= n
+    import z3
+    from .explorer import cur
+    outs = [_np.empty(a.shape, dtype=object) for _ in shape]
+    it = _np.ndindex(a.shape) if a.ndim else [()]
+    for ix in it:
+        v = SymInt.lift(a[ix]) if not isinstance(a[ix], SymInt) else a[ix]
+        if not SymBool(z3.And(v.t >= 0, v.t < tot)):
+            raise ValueError('index out of bounds for array with size %d' % tot)
+        rem = v
+        for k in range(len(shape) - 1, -1, -1):
+            n = shape[k]
+            outs[k][ix] = SymInt(z3.simplify(rem.t % n)) if n != 1 else 0
+            rem = SymInt(rem.t / n) if n != 1 else rem
+    from . import symtorch as st
+    if a.ndim == 0:
+        return tuple(o[()] for o in outs)
+    return tuple(ndarray(o, st.int64) for o in outs)
+
+
+def _stack_sym(arrs, axis_fn):
+    from . import symtorch as st
+    raws = [_raw(x) for x in arrs]
+    if not any(_symbolic_arg(x) for x in arrs):
+        return None
+    r = axis_fn([r_ if r_.ndim else r_.reshape(1) for r_ in raws])
+    cats = [getattr(x, 'tdtype', None) or getattr(x, 'dtype', None) for x in arrs]
+    dt = st.int64
+    for c in cats:
+        if c is not None and hasattr(c, 'cat') and c.cat >= 2:
+            dt = c
+    return ndarray(r, dt)
+
+
+def _vstack(arrs, **k):
+    r = _stack_sym(list(arrs), lambda xs: _np.vstack([x.astype(object) for x in xs]))
+    return r if r is not None else _np.vstack(arrs, **k)
+
+
+def _hstack(arrs, **k):
+    r = _stack_sym(list(arrs), lambda xs: _np.hstack([x.astype(object) for x in xs]))
+    return r if r is not None else _np.hstack(arrs, **k)
+
+
+facade.unravel_index = _unravel_index
+facade.vstack = _vstack
+facade.hstack = _hstack
 facade.iscomplex = lambda x: unsupported('numpy.iscomplex') if _symbolic_arg(x) else _np.iscomplex(x)
 facade.max = _max
 facade.__version__ = _np.__version__
